@@ -487,6 +487,35 @@ func textSession(tag byte) func(l logger) {
 	}
 }
 
+// stallSrc delivers data[:stallAt], reports that it is parked, waits for release and delivers the rest.
+type stallSrc struct {
+	data    []byte
+	off     int
+	stallAt int
+	stalled bool
+	parked  chan struct{}
+	release chan struct{}
+}
+
+func (s *stallSrc) Read(p []byte) (int, error) {
+	if s.off >= len(s.data) {
+		return 0, io.EOF
+	}
+	end := len(s.data)
+	if !s.stalled {
+		if s.off >= s.stallAt {
+			s.stalled = true
+			s.parked <- struct{}{}
+			<-s.release
+		} else {
+			end = s.stallAt
+		}
+	}
+	n := copy(p, s.data[s.off:end])
+	s.off += n
+	return n, nil
+}
+
 // yDstBuf is a destination that yields to the scheduler before every write.// yDstBuf is a destination that yields to the scheduler before every write.
 type yDstBuf struct {
 	b *bytes.Buffer
@@ -762,6 +791,97 @@ func main() {
 			for _, m := range mixes3 {
 				runMix(t, m, all, ref, explore.ExploreOpts{Bound: b}, false)
 			}
+		})
+		// "Any number of goroutines": k connections are in the middle of receiving a large frame
+		// (header and the first 4 KiB have arrived, their peers then stall), for every k up to 129;
+		// one more connection whose data is all there is served to its end meanwhile, with the
+		// result it has alone; then the stalled peers deliver the rest and every one of the k
+		// frames arrives intact. Entry points: ReadFrame, ReadMessage, ReadData, Reader+ReadAll.
+		r.Part("E5-k-connections-waiting-for-slow-peers", func(t *explore.T) {
+			vsync.SetMode(vsync.Passthrough)
+			const n = 1<<20 + 100
+			body := fill(n, 77)
+			wire := mkFrame(2, true, true, body)
+			entries := map[string]func(src io.Reader) ([]byte, error){
+				"ReadFrame": func(src io.Reader) ([]byte, error) {
+					f, err := ws.ReadFrame(src)
+					if err == nil && f.Header.Masked {
+						f = ws.UnmaskFrameInPlace(f)
+					}
+					return f.Payload, err
+				},
+				"ReadMessage": func(src io.Reader) ([]byte, error) {
+					m, err := wsutil.ReadClientMessage(src, nil)
+					if err != nil || len(m) != 1 {
+						return nil, fmt.Errorf("%d messages, err=%v", len(m), err)
+					}
+					return m[0].Payload, nil
+				},
+				"ReadData": func(src io.Reader) ([]byte, error) {
+					p, _, err := wsutil.ReadClientData(env.RW{Reader: src, Writer: io.Discard})
+					return p, err
+				},
+				"Reader+ReadAll": func(src io.Reader) ([]byte, error) {
+					rd := wsutil.NewServerSideReader(src)
+					if _, err := rd.NextFrame(); err != nil {
+						return nil, err
+					}
+					return io.ReadAll(rd)
+				},
+			}
+			for _, name := range []string{"ReadFrame", "ReadMessage", "ReadData", "Reader+ReadAll"} {
+				run := entries[name]
+				for _, k := range []int{1, 2, 3, 4, 8, 9, 16, 17, 32, 33, 64, 65, 128, 129} {
+					if k > 33 && !t.Thorough() && k != 129 {
+						continue
+					}
+					name, k := name, k
+					t.Do(func() string {
+						return fmt.Sprintf("%s: %d connections stalled inside a frame of %d bytes, one more with all its data there", name, k, n)
+					}, func() *explore.Fail {
+						release := make(chan struct{})
+						parked := make(chan struct{}, k)
+						type res struct {
+							p   []byte
+							err error
+						}
+						results := make(chan res, k)
+						for i := 0; i < k; i++ {
+							go func() {
+								p, err := run(&stallSrc{data: wire, stallAt: 14 + 4096, parked: parked, release: release})
+								results <- res{p, err}
+							}()
+						}
+						for i := 0; i < k; i++ {
+							<-parked
+						}
+						done := make(chan res, 1)
+						go func() {
+							p, err := run(bytes.NewReader(wire))
+							done <- res{p, err}
+						}()
+						var fail *explore.Fail
+						select {
+						case r := <-done:
+							if r.err != nil || !bytes.Equal(r.p, body) {
+								fail = explore.Failf("connection-served-wrongly-while-others-wait:"+name, "err=%v, %d bytes", r.err, len(r.p))
+							}
+						case <-time.After(2 * time.Minute):
+							fail = explore.Failf("hang:connection-blocked-by-other-connections-waiting-for-their-peers:"+name, "with %d other connections stalled inside a frame, a connection whose frame is completely there was not served within two minutes", k)
+						}
+						close(release)
+						for i := 0; i < k; i++ {
+							r := <-results
+							if fail == nil && (r.err != nil || !bytes.Equal(r.p, body)) {
+								fail = explore.Failf("stalled-connection-served-wrongly:"+name, "err=%v, %d bytes", r.err, len(r.p))
+							}
+						}
+						return fail
+					})
+				}
+			}
+			t.Outcome("served")
+			t.Note("real goroutines, no scheduler: the k stalled connections are confirmed parked inside their payload read before the extra connection starts; the only timing element is the two-minute bound after which a connection that was not served counts as blocked")
 		})
 		r.Part("E3-unbounded-state-pruned", func(t *explore.T) {
 			ms := [][]string{{"S2s", "S2t"}}
